@@ -321,6 +321,13 @@ class HistoryRunner:
         self.variants[p] += 1
         data = ("manual %s %d\n" % (p, self.variants[p])).encode()
         existed = p in m.fs
+        if existed and (self.variants[p] + len(p)) % 2 == 0:
+            # a hand edit that keeps the byte size (one character changed): only the mtime gives it away
+            cur = disk.read(p)
+            if cur:
+                b0 = cur[:1]
+                data = (b"#" if b0 != b"#" else b"%") + cur[1:]
+                self.out.events["c11:hand-edit-keeps-the-size"] += 1
         was_redo = existed and m.fs[p].owner == "redo"
         disk.write(p, data, fresh_inode=(how == "replace"))
         m.user_write(p, data)
